@@ -56,8 +56,9 @@ def run(shard):
         first = code.co_firstlineno
         bad = []
         colines = H.colines_lookup(code) if H.IS310 else None
+        lookup = H.line_lookup(code)
         for off in range(0, len(code.co_code), 2):
-            want = H.addr2line(code, off)
+            want = lookup(off)
             if colines is not None and colines.get(off, "absent") != want:
                 H.count("reference_disagreement:addr2line_vs_co_lines")
             got = res.offset_to_line.get(off, "missing")
